@@ -12,6 +12,11 @@ None == 1000
 Valid     == (1..9) \cup (20..98)    \* ordinary items (the model checker uses 1..4; recorded test-suite traces up to 88)
 Coercible == 11..19
 Invalid   == {99}
+\* keys as objects: 151..154 are floats EQUAL to the int keys 1..4 (1.0 == 1, same hash).  A validator rejects them (they
+\* are not ints), yet every dict lookup finds the stored int key through them.  (Used under validating key modes only:
+\* without a validator they would be stored, and then 1.0 and 1 are one key.)
+EqInvalid == 151..154
+RawKey(k) == IF k \in EqInvalid THEN k - 150 ELSE k
 VModes    == {"id", "coerce", "strict"}
 \* "id": no validation; "coerce": casts Coercible items; "strict": only Valid items
 Accepts(vm, x) == vm = "id" \/ x \in Valid \/ (vm = "coerce" /\ x \in Coercible)
@@ -51,7 +56,7 @@ OpUpdate(d, kvm, vvm, ps) ==
 \* invalid default may or may not be reported.
 OpSetDefault(d, kvm, vvm, k, v) ==
   LET ok == Accepts(kvm, k) /\ Accepts(vvm, v) IN
-  IF Has(d, k) THEN [post |-> d, ret |-> <<Get(d, k)>>, excs |-> IF ok THEN {""} ELSE {"", "TraitError"}]
+  IF Has(d, RawKey(k)) THEN [post |-> d, ret |-> <<Get(d, RawKey(k))>>, excs |-> IF ok THEN {""} ELSE {"", "TraitError"}]
   ELSE IF ~ok THEN Fail(d, {"TraitError"})
   ELSE LET vk == V(kvm, k) IN
        IF Has(d, vk) THEN Ok(d, <<Get(d, vk)>>) ELSE Ok(Put(d, vk, V(vvm, v)), <<V(vvm, v)>>)
@@ -79,11 +84,11 @@ OpAssign(d, kvm, vvm, ps) ==
 \* a = <<a1, a2, a3>> ints; ps = pair list
 Apply(op, d, kvm, vvm, a, ps) ==
   CASE op = "setitem"    -> OpSetItem(d, kvm, vvm, a[1], a[2])
-    [] op = "delitem"    -> OpDelItem(d, a[1])
+    [] op = "delitem"    -> OpDelItem(d, RawKey(a[1]))
     [] op = "update"     -> OpUpdate(d, kvm, vvm, ps)       \* a[1]: 0 mapping, 1 iterable of pairs
     [] op = "ior"        -> OpUpdate(d, kvm, vvm, ps)
     [] op = "setdefault" -> OpSetDefault(d, kvm, vvm, a[1], a[2])
-    [] op = "pop"        -> OpPop(d, a[1], a[2], a[3])
+    [] op = "pop"        -> OpPop(d, RawKey(a[1]), a[2], a[3])
     [] op = "popitem"    -> OpPopItem(d)
     [] op = "clear"      -> OpClear(d)
     [] op = "construct"  -> OpConstruct(kvm, vvm, ps)
